@@ -61,6 +61,11 @@ def run(ctx, res):
     res.guard(RR.rule_consume_file, prog, res, "process_data", "iterate")
     res.guard(RR.rule_consume_file, prog, res, "video_sink_thread", "append")
     res.guard(RR.rule_pairs, prog, res, ["video_sink_thread", "process_data", "acquire_stop"])
+    # "no leftovers from the aborted acquisition": an averaging window that abort left open (mapped, never
+    # committed) is in ring memory the next window is placed on; the filter starts every window from zero
+    from .c10 import init_rmw
+    res.guard(init_rmw, prog, res, prog.func("process_data"))
+    res.require_min("O-INIT-RMW", 1)
     res.require_min("R-CONSUME", 2)
     res.require_min("L-REFUSE-WAKES", 1)
     res.guard(RR.rule_start_unwind, prog, res)
